@@ -1422,6 +1422,20 @@ class Memoer(Tymee):
 
 
         """
+        try:
+            return self._pick(gram)
+        except hioing.MemoerError:
+            raise
+        except (KeyError, ValueError, IndexError) as ex:  # malformed head parts
+            raise hioing.MemoerError(f"Malformed gram head or signature: "
+                                     f"{ex!r}") from ex
+
+
+    def _pick(self, gram):
+        """Returns result of .pick. May raise KeyError, ValueError or IndexError
+        besides MemoerError when parts of the gram head are malformed.
+        See .pick for parameters and return value.
+        """
         curt = self.wiff(gram)  # rx gram encoding True=B2 or False=B64
         if curt:  # base2 binary encoding in triplets
             if len(gram) < 3:  # assumes len(code) must be 3 triplets (4 sextexts)
@@ -1460,7 +1474,7 @@ class Memoer(Tymee):
                     vid = self.vids.get(mid.decode()) # if not then get from .vids
                     vid = vid.encode() if vid is not None else b""
             elif code in AckDex:
-                pass
+                gc = None  # not provided in this gram
             else:
                 raise hioing.MemoerError(f"Invalid {code=}")
 
@@ -1498,7 +1512,7 @@ class Memoer(Tymee):
                     vid = self.vids.get(mid.decode()) # if not then get from .vids
                     vid = vid.encode() if vid is not None else b""
             elif code in AckDex:
-                pass
+                gc = None  # not provided in this gram
             else:
                 raise hioing.MemoerError(f"Invalid {code=}")
 
@@ -1663,6 +1677,10 @@ class Memoer(Tymee):
         if len(grams) < cnt:  # must be missing one or more grams
             return None
 
+        for i in range(cnt):  # may hold gram numbers beyond cnt instead
+            if i not in grams:
+                return None
+
         memo = bytearray()
         for i in range(cnt):  # iterate in numeric order, items are insertion ordered
             memo.extend(grams[i])  # extend memo with gram body part at gram i
@@ -1682,7 +1700,16 @@ class Memoer(Tymee):
             # if mid then grams dict at mid must not be empty
             if not mid in self.counts:  # missing first gram so skip
                 continue
-            memo = self.fuse(self.rxgs[mid], self.counts[mid])
+            try:
+                memo = self.fuse(self.rxgs[mid], self.counts[mid])
+            except UnicodeDecodeError as ex:  # complete but not a valid memo so drop
+                logger.error("Invalid Memoer memo from %s.\n %s.",
+                             self.sources[mid], ex)
+                del self.rxgs[mid]
+                del self.counts[mid]
+                del self.sources[mid]
+                del self.vids[mid]
+                continue
             if memo is not None:  # allows for empty "" memo for some src
                 self.rxms.append((memo, self.sources[mid], self.vids[mid]))
                 del self.rxgs[mid]
